@@ -1,9 +1,97 @@
 import PersimVerif.Drv.Util
-/-! driver commands: Wasserstein (stub until the model lands) -/
+import PersimVerif.Model.Wasserstein
+/-!
+  driver commands for C02 (and the matching rows C06 re-uses):
+
+  * `ws.matrix <dgm1> <dgm2>`   → `[warn1, warn2, D]`  the model's augmented cost matrix at `Float`
+                                   (`inf` = an `np.inf` entry), warnings as `T`/`F`
+  * `ws.exh <dgm1> <dgm2>`      → `[warn1, warn2, value]`  the model at `Float` with the exhaustive
+                                   assignment solver as `lsa`; `err:TooLarge` when `M+N > 8`
+  * `ws.exh.m <dgm1> <dgm2>`    → `[warn1, warn2, value, rows]` the same with the `matching=True` rows
+  * `cert.dual <D> <cols> <a> <b>` → `[T, w]` when the exact-rational dual certificate checks
+                                   (`w` = certified optimum of `D`), `[F]` otherwise
+  * `spec.ws <dgm1> <dgm2>`     → `[value]` minimum over all partial matchings of the finite parts,
+                                   by exhaustive enumeration at `Float` (`err:TooLarge` when `M+N > 12`)
+
+  A diagram is a list of `[b, d]`; a death that is `inf`, `-inf` or `nan` is "not finite".
+-/
 namespace PersimVerif.Drv.Wasserstein
 open PersimVerif Val PersimVerif.Drv
+open PersimVerif.Wasserstein
+
+def death? : Val → Option (Option Float)
+  | .inf _ => some none
+  | .nan => some none
+  | v => (asFloat? v).map some
+
+def point? : Val → Option (Float × Option Float)
+  | .list [b, d] => do pure (← asFloat? b, ← death? d)
+  | _ => none
+
+def dgm? : Val → Option (Dgm Float) := listOf? point?
+
+def pi4 : Float := 3.141592653589793 / 4
+
+def ofOptFloat : Option Float → Val
+  | some x => .flt x
+  | none => .inf false
+
+def ofOptRat : Option Rat → Val
+  | some x => .num x
+  | none => .inf false
+
+def optRatE? : Val → Option (Option Rat)
+  | .inf false => some none
+  | v => (asRat? v).map some
+
+def diagSpec (p : Float × Float) : Float := (p.2 - p.1) / Float.sqrt 2.0
+
+def runExh (d1 d2 : Dgm Float) : Option (Except Err (Out Float)) :=
+  let D := matrixOf Float.sqrt (Float.cos pi4) (Float.sin pi4) d1 d2
+  match exhGo D [] with
+  | none => none
+  | some _ => some (wasserstein Float.sqrt (Float.cos pi4) (Float.sin pi4) exhLsa d1 d2)
+
+def ofRows (rows : List (Int × Int × Option Float)) : Val :=
+  .list (rows.map fun r => .list [Val.ofInt r.1, Val.ofInt r.2.1, ofOptFloat r.2.2])
 
 def handle : Handler
+  | "ws.matrix", [a, b] => do
+    let d1 ← dgm? a
+    let d2 ← dgm? b
+    let D := matrixOf Float.sqrt (Float.cos pi4) (Float.sin pi4) d1 d2
+    pure (.list [ofBool (warned d1), ofBool (warned d2), .list (D.map fun r => .list (r.map ofOptFloat))])
+  | "ws.exh", [a, b] => do
+    let d1 ← dgm? a
+    let d2 ← dgm? b
+    if (prepared d1).length + (prepared d2).length > 8 then pure (err "TooLarge") else
+    match runExh d1 d2 with
+    | none => pure (err "ValueError")
+    | some (.error _) => pure (err "IndexError")
+    | some (.ok o) => pure (.list [ofBool o.warn1, ofBool o.warn2, ofOptFloat o.value])
+  | "ws.exh.m", [a, b] => do
+    let d1 ← dgm? a
+    let d2 ← dgm? b
+    if (prepared d1).length + (prepared d2).length > 8 then pure (err "TooLarge") else
+    match runExh d1 d2 with
+    | none => pure (err "ValueError")
+    | some (.error _) => pure (err "IndexError")
+    | some (.ok o) => pure (.list [ofBool o.warn1, ofBool o.warn2, ofOptFloat o.value, ofRows o.rows])
+  | "cert.dual", [m, c, a, b] => do
+    let D ← matOf? optRatE? m
+    let cols ← listOf? asNat? c
+    let pa ← listOf? asRat? a
+    let pb ← listOf? asRat? b
+    match dualCheck D cols pa pb with
+    | some w => pure (.list [ofBool true, .num w])
+    | none => pure (.list [ofBool false])
+  | "spec.ws", [a, b] => do
+    let d1 ← dgm? a
+    let d2 ← dgm? b
+    let S := finitePart d1
+    let T := finitePart d2
+    if S.length + T.length > 12 then pure (err "TooLarge") else
+    pure (.list [.flt (specGo (dist Float.sqrt) diagSpec S T)])
   | _, _ => none
 
 end PersimVerif.Drv.Wasserstein
